@@ -165,8 +165,6 @@ def shard_builder(ty, tier):
     cases = []
     cache = {}
     for seq, st in builder_sequences(4 if tier == "thorough" else 3):
-        if not any(k == "m" for k, _ in seq) and not any(k == "p" for k, _ in seq) and len(seq) > 1:
-            continue
         k = (st["v"], st["t"], st["p"], st["m"])
         if k not in cache:
             cache[k] = obs_of(argon2.argon2(ty, st["v"], st["t"], st["p"], st["m"], PW, SALT, b"", b"", 16))
